@@ -561,6 +561,21 @@ def rule_expressible(ctx: Ctx, rep: Report) -> None:
         facts = [t for t, p in g.facts_at_ast(c) if p]
         ok = any(t.startswith("all(") and "[1]" in t for t in facts)
         rep.ob(rule, "btclib.curves.curve.multi_mult_var:all_terms", ok, mm.where(c), f"facts {facts}")
+        # ... and what the guard walks is what is handed over: the *reduced* scalars, not the caller's spellings of them
+        handed = [str(norm(a)) for a in c.args[:2]]
+        walked: list[str] = []
+        for t in facts:
+            if str(t).startswith("all("):
+                try:
+                    tree = ast.parse(str(t), mode="eval")
+                except SyntaxError:
+                    continue
+                for z in ast.walk(tree):
+                    if isinstance(z, ast.Call) and call_name(z) == "zip":
+                        walked = [str(norm(a)) for a in z.args[:2]]
+        oks = bool(walked) and walked == handed
+        rep.ob(rule, "btclib.curves.curve.multi_mult_var:guard_walks_what_is_handed", oks, mm.where(c), f"the guard walks {walked}, the bindings are handed {handed}" + ("" if oks else
+               ": a scalar that is zero only after reduction (n, 2n, 32 zero bytes) passes the guard and is a ValueError in the bindings, where the Python arm drops the term"))
     sv = ctx.func("btclib.curves.curve._sum_var")
     filt = [n for n in own_nodes(sv.node) if isinstance(n, ast.comprehension) and any("[1]" in norm(i) for i in n.ifs)]
     rep.ob(rule, "btclib.curves.curve._sum_var:filters_infinity", bool(filt), sv.where(), "terms at infinity are filtered before the sum")
